@@ -13,10 +13,33 @@ PROPS = {
             "refreshed(): unknown on stat failure, self when (mode, mtime, size, inode) are unchanged, "
             "otherwise the digest of the current content with the current stat fields",
         ],
-        undecided=[],
+        undecided=["the structural induction over the number of records (lemmas H1/H3 imply injectivity of the whole "
+                   "stream) is a meta-step unless the Lean check is present",
+                   "wiring of the ingredients in executor.py (_compute_inp_step_hash, _compute_full_step_hash)"],
         assumptions=["SHA-256 collision resistance", "UTF-8 facts", "os.stat reports st_mode != 0 for an existing file"],
+        level="Contracts on the real hash.py / step.py functions pin the digested byte streams to spec streams for all "
+              "inputs and all iteration counts (loop invariants), prove refreshed()/compute_file_digest() against the "
+              "property's change-detection sentence, and injectivity of the spec streams is proved as solver lemmas; "
+              "the JSON round trip is a bounded stand-in.",
+        note="Trusted: hashlib/SHA-256 collision resistance, UTF-8 facts, os.stat/open contracts, attrs-generated "
+             "__init__/__eq__, the induction schema, the solvers, pyvc itself.",
+    ),
+    "C18": dict(
+        modules=["contracts.C18_under"],
+        decided=["every selection site (range, substr, prefix pattern, startswith) is equivalent to "
+                 "under(d, l) := d ends with '/' and l starts with d"],
+        undecided=[],
+        assumptions=["SQLite LIKE/GLOB/substr/length/BINARY collation as documented", "UTF-8 order facts"],
+        level="Every directory-selection site (range comparison, substr, GLOB/LIKE prefix pattern, Python startswith) "
+              "in the real functions and SQL constants is proved equivalent to one spec predicate under(d, l) for all "
+              "strings; the range lemma is proved in an array encoding; the SQL pattern operators' assumed contracts "
+              "are validated exhaustively on small strings against the SQLite library.",
+        note="Trusted: SQLite operator semantics (validated bounded), posixpath.join contract, code point order facts, "
+             "assumed contracts of Trellis.create / Node.creator / declare_static_files, the solvers, pyvc itself.",
     ),
 }
+
+NOT_BUILT = {}
 
 _loaded = False
 for _p, _i in PROPS.items():
